@@ -37,7 +37,7 @@ def plan(quick):
     p = [("rd", 1, "full", 1), ("rs", 2, "full", 1), ("rs", 3, "tiny", 1), ("rs", 1, "full", 2), ("rs", 1, "full", 3),
          ("rs", 2, "red", 2), ("bt", 1, "full", 1), ("cf", 1, "full", 1), ("cm", 3, "full", 1), ("cm", 3, "full", 2), ("cm", 2, "full", 3)]
     if not quick:
-        p += [("rs", 3, "red", 1), ("rs", 4, "tiny", 1), ("rs", 2, "full", 2), ("rs", 2, "red", 3), ("rs", 3, "tiny", 2)]
+        p += [("rs", 3, "red", 1), ("rs", 4, "tiny", 1), ("rs", 2, "full", 2), ("rs", 2, "red", 3), ("rs", 3, "tiny", 2), ("rs", 3, "red", 2)]
     return p
 
 
